@@ -310,7 +310,8 @@ fn pattern_matches(i: usize, name: &str) -> bool {
 }
 
 fn gen_members(rng: &mut Rng, sandbox: &Path) -> Vec<Member> {
-    let n = 1 + rng.usize_below(8);
+    let tiny = std::env::var("VMON_TINY").is_ok();
+    let n = 1 + rng.usize_below(if tiny { 3 } else { 8 });
     let outside_abs = sandbox.join("outside.txt").to_string_lossy().to_string();
     let names: Vec<String> = vec![
         "a.dlt".into(),
@@ -342,7 +343,8 @@ fn gen_members(rng: &mut Rng, sandbox: &Path) -> Vec<Member> {
             let l = match rng.below(4) {
                 0 => 0,
                 1 => 1 + rng.usize_below(20),
-                2 => 65536 + rng.usize_below(100), // larger than the 64 KiB copy buffer
+                2 if !tiny => 65536 + rng.usize_below(100), // larger than the 64 KiB copy buffer
+                _ if tiny => rng.usize_below(200),
                 _ => rng.usize_below(3000),
             };
             rng.bytes(l)
